@@ -85,4 +85,31 @@ theorem lpRows_table :
     lpRhsIsNegatedConstant = true := by
   decide
 
+/-- the rest of `LinearProgramExtractor`, statement by statement: `extract_objective` (after its two guards:
+    no objective → NoObjectiveError, non-linear → NonLinearError), the frame of `extract_constraints` around the row
+    loop, `extract_bounds` (the declared `(lb, ub)` of every variable, untouched, in the order of `variables`) and the
+    assembly of `LPData` in `extract` — the text `Py.extractObjective`, `Py.extractConstraints`, `Py.extractBounds`
+    and `Py.extractLP` (C05) are readings of -/
+theorem lpExtract_text :
+    lpExtractObjective = ["variables = problem.variables", "n = len(variables)",
+      "var_index = {var.name: i for i, var in enumerate(variables)}",
+      "c = extract_all_linear_coefficients(problem.objective, var_index, n)",
+      "sense = 'min' if problem.sense == 'minimize' else 'max'", "return (c, sense, variables)"] ∧
+    lpExtractConstraintsFrame = ["n = len(variables)", "ub_rows: list[NDArray[np.floating]] = []",
+      "ub_rhs: list[float] = []", "eq_rows: list[NDArray[np.floating]] = []", "eq_rhs: list[float] = []",
+      "var_index = {var.name: i for i, var in enumerate(variables)}",
+      "A_ub = np.array(ub_rows, dtype=np.float64) if ub_rows else None",
+      "b_ub = np.array(ub_rhs, dtype=np.float64) if ub_rhs else None",
+      "A_eq = np.array(eq_rows, dtype=np.float64) if eq_rows else None",
+      "b_eq = np.array(eq_rhs, dtype=np.float64) if eq_rhs else None", "return (A_ub, b_ub, A_eq, b_eq)"] ∧
+    lpExtractBounds = ["bounds: list[tuple[float | None, float | None]] = []",
+      "for var in variables: lb = var.lb if var.lb is not None else None ub = var.ub if var.ub is not None else None bounds.append((lb, ub))",
+      "return bounds"] ∧
+    lpExtract = ["c, sense, variables = self.extract_objective(problem)",
+      "A_ub, b_ub, A_eq, b_eq = self.extract_constraints(problem, variables)",
+      "bounds = self.extract_bounds(variables)", "c=c", "sense=sense", "A_ub=A_ub", "b_ub=b_ub", "A_eq=A_eq",
+      "b_eq=b_eq", "bounds=bounds", "variables=[v.name for v in variables]",
+      "c0=extract_constant_term(problem.objective)"] :=
+  ⟨rfl, rfl, rfl, rfl⟩
+
 end Optyx.Props.Glue
